@@ -26,9 +26,71 @@ def resolve_roots(F, names):
     return out
 
 
-def check_requires(F, cg, req):
+def _arm_targets(F, fn, D, call_suffix, variant_names):
+    """blocks entered only when the result of a call to `call_suffix` is one of `variant_names`
+    (match arms on its discriminant, or the matching edge of is_ok/is_err/is_some/is_none on it)"""
+    from .facts import callee_name
+    from .dataflow import op_place
+    out = []
+    truth = {"is_ok": ("Ok",), "is_err": ("Err",), "is_some": ("Some",), "is_none": ("None",)}
+    for bi, t in fn.calls():
+        if not strip_generics(callee_name(t) or "").endswith(call_suffix):
+            continue
+        r = t["dest"]["l"]
+        tainted = D.flow.forward_taint({r})
+        for b2, blk in enumerate(fn.blocks):
+            tt = blk["t"]
+            if tt["k"] == "switch":
+                p = op_place(tt["op"])
+                for st in blk["s"]:
+                    if p is not None and st["k"] == "=" and st["lhs"]["l"] == p["l"] and st["rv"]["k"] == "discr" and st["rv"]["pl"]["l"] in tainted and not st["rv"]["pl"]["p"]:
+                        vs = F.enum_variants(st["rv"]["ty"]) or []
+                        m = dict((v, bb) for v, bb in tt["ts"])
+                        for name, d, vi in vs:
+                            if name in variant_names:
+                                out.append((b2, m.get(d, tt["else"])))
+            if tt["k"] == "call":
+                n = strip_generics(callee_name(tt) or "").split("::")[-1]
+                if n in truth and tt["args"]:
+                    rp = D.defs.resolve_place(tt["args"][0])
+                    if rp is not None and rp["l"] in tainted and tt.get("t") is not None:
+                        nb = fn.blocks[tt["t"]]["t"]
+                        if nb["k"] == "switch":
+                            m = dict((v, bb) for v, bb in nb["ts"])
+                            true_t = nb["else"] if 0 in m else m.get(1)
+                            false_t = m.get(0, nb["else"])
+                            positive = any(v in variant_names for v in truth[n])
+                            out.append((tt["t"], true_t if positive else false_t))
+    return out
+
+
+def check_requires(F, cg, req, fn=None, site=None, D=None):
     """re-checkable clauses attached to audited entries"""
     kind = req.get("kind")
+    if kind == "site_dominated_by_arm":
+        # the site is only reached when an earlier call returned the given variant
+        arms = _arm_targets(F, fn, D, req["call"], set(req["variants"]))
+        for src, tgt in arms:
+            if D._edge_dominates(src, tgt, site.bb):
+                return True, "dominated by the %s arm of %s" % ("/".join(req["variants"]), req["call"])
+        return False, "the site is no longer dominated by the %s arm of a call to %s" % ("/".join(req["variants"]), req["call"])
+    if kind == "increments_dominated_by_arm":
+        # every increment of the named local happens on the given arm of the given call
+        arms = _arm_targets(F, fn, D, req["call"], set(req["variants"]))
+        incs = []
+        for bi, b in enumerate(fn.blocks):
+            for st in b["s"]:
+                if st["k"] == "=" and st["rv"]["k"] == "bin" and st["rv"]["op"].startswith("Add"):
+                    from .dataflow import op_place
+                    pa = op_place(st["rv"]["a"])
+                    if pa is not None and not pa["p"] and fn.local_name(pa["l"]) == req["local"]:
+                        incs.append(bi)
+        if not incs:
+            return False, "no increment of `%s` found" % req["local"]
+        for bi in incs:
+            if not any(D._edge_dominates(src, tgt, bi) or tgt == bi for src, tgt in arms):
+                return False, "`%s` is incremented at %s outside the %s arm of %s" % (req["local"], fn.loc(fn.blocks[bi]["t"]), "/".join(req["variants"]), req["call"])
+        return True, "`%s` only grows on the %s arm of %s" % (req["local"], "/".join(req["variants"]), req["call"])
     if kind == "only_called_from":
         # every direct/CHA/fn-ref caller of `fn` anywhere in the workspace is one of `callers` (name prefixes)
         targets = [f for f in F.fns.values() if strip_generics(f.name) == req["fn"] or (req.get("trait_method") and f.impl and f.impl.get("trait") == req["trait_method"][0] and f.name.endswith("::" + req["trait_method"][1]))]
@@ -93,7 +155,7 @@ def run_pps(F, R, rule, entry_names, kinds, cha_crates, registry_names=None, arm
                 used.add(inst)
                 req = audited[inst].get("requires")
                 if req:
-                    okk, why = check_requires(F, cg, req)
+                    okk, why = check_requires(F, cg, req, fn, s, D)
                     if not okk:
                         hist["requires-failed"] += 1
                         R.violation(rule, inst, "the audited invariant for this site no longer holds: %s (site: %s `%s`)" % (why, fn.name, s.snip[:70]), s.loc)
